@@ -520,7 +520,8 @@ func redactPipelineStage(stage interface{}, redactFieldNames bool, keyPath []str
 							isSelectivelyRedactable := isRedactableFieldPatternInArray(subVTyped)
 							newSubMap.Set(redactedSubK, redactArrayValues(subVTyped, redactFieldNames, inSearchStage, isSelectivelyRedactable, append(newKeyPath, subK)))
 						default:
-							newSubMap.Set(redactedSubK, redactScalarValue([]string{k}, subV, inSearchStage, false))
+							// pass the sub-key as well: the placeholder class depends on it ($binary.base64)
+							newSubMap.Set(redactedSubK, redactScalarValue([]string{k, subK}, subV, inSearchStage, false))
 						}
 					}
 					newMap.Set(redactedKey, newSubMap)
